@@ -140,9 +140,9 @@ fn check_forms(rep: &Reporter, t: &Tlv, forms: &[LenForm], evals: &AtomicU64, no
     }
 }
 
-fn int_values(tier: Tier) -> Vec<i64> {
+fn int_values(tier: Tier, deep: bool) -> Vec<i64> {
     let mut v: Vec<i64> = vec![];
-    let r = tier.pick(70_000i64, 1_100_000i64);
+    let r = if deep { 12_000_000i64 } else { tier.pick(70_000i64, 1_100_000i64) };
     v.extend(-r..=r);
     for k in 0..=63u32 {
         let p: i128 = 1i128 << k;
@@ -171,6 +171,10 @@ fn int_class(v: i64) -> String {
 
 pub fn run(tier: Tier) -> i32 {
     let rep = Reporter::new("C07", tier);
+    // the bounds that used to be the thorough tier's are cheap enough for every run
+    let deep = tier == Tier::Thorough;
+    let tier = Tier::Thorough;
+    let _ = deep;
     let evals = AtomicU64::new(0);
     let nonmin = AtomicU64::new(0);
     let distinct = AtomicU64::new(0);
@@ -429,7 +433,7 @@ pub fn run(tier: Tier) -> i32 {
     }
 
     // ---- c. integers
-    let ints = int_values(tier);
+    let ints = int_values(tier, deep);
     let int_classes = std::sync::Mutex::new(std::collections::BTreeSet::new());
     par_for(ints.len() as u64, |i| {
         let v = ints[i as usize];
